@@ -85,6 +85,13 @@ var parseCtx = []struct{ pre, post string }{
 	{vT + "{call .t}{param ", ": 1/}{/call}\n{/template}\n"},                                // 69
 	{vT + "{let $x kind=\"", "\"}a{/let}\n{/template}\n"},                                   // 70
 	{vT + "{msg desc=\"\"}{plural $x}{case ", "}a{default}b{/plural}{/msg}\n{/template}\n"}, // 71
+	// command names the parser knows of but does not implement, at file level and in a template
+	{"{delpackage a.b}\n{namespace a}\n", ""},                  // 72
+	{"{namespace a}\n{delpackage ", ""},                        // 73
+	{"{namespace a}\n{deltemplate a.b}\n", "{/deltemplate}\n"}, // 74
+	{vT + "{delcall a.b}", "{/delcall}\n{/template}\n"},        // 75
+	{vT + "{debugger}{log}", "{/log}\n{/template}\n"},          // 76
+	{"{delpackage", ""},                                        // 77
 }
 
 // exprCtx: the same for parse.Expr
